@@ -30,7 +30,9 @@ class P(C07):
     def extra(self, tier, rng, known):
         """the filter list as the options code builds it (vflow/options.go arrUInt32Flags.Set + flagSet)"""
         cases, want = [], []
-        lists = [[1], [2], [1, 2], [2, 1], [7, 1], [4, 2, 1], [4095], [1, 1001, 2], list(range(100, 120)) + [2, 1]]
+        lists = [[1], [2], [1, 2], [2, 1], [7, 1], [4, 2, 1], [4095], [1, 1001, 2], list(range(100, 120)) + [2, 1],
+                 # entries of 4096 and more name vendor-specific structures (enterprise << 12 | format): they are taken as written
+                 [4097], [8194, 4098], [65537, 2], [4294967295], [18075649]]
         if tier != "quick":
             lists += [[rng.randrange(1, 5000) for _ in range(rng.choice([2, 3, 5]))] for _ in range(40)]
         for l in lists:
